@@ -73,8 +73,9 @@ def chain(draw, cid="A", nmin=1, nmax=6, wild=False, hyd=None, variants=0.2, sta
     )
     if any(topo.BASE.get(r, r) in ("ASP", "GLU") for r in seq) and draw(st.integers(0, 1)) == 0:
         d["acid"] = [draw(st.sampled_from([None, [1.35, 1.20], [1.20, 1.35], [1.26, 1.25], [1.31, 1.21]])) for _ in range(n)]
-    if d["hyd"] == "all" and draw(st.integers(0, 2)) == 0:
-        d["altmod"] = draw(st.sampled_from([1, 2, 3]))  # old / alternative atom names in the input
+    if draw(st.integers(0, 2 if d["hyd"] == "all" else 4)) == 0:
+        # old / alternative atom names in the input (heavy-only inputs: ILE CD, OT1/OT2, O'/O'')
+        d["altmod"] = draw(st.sampled_from([1, 2, 3]))
     if d["hyd"] == "all" and draw(st.integers(0, 1)) == 0:
         d["hdrop"] = [[draw(st.integers(0, n - 1)), draw(st.integers(0, 40))] for _ in range(draw(st.integers(1, 3)))]
     if draw(st.integers(0, 3)) == 0:
